@@ -300,8 +300,14 @@ class C15(Spec):
         ops += genops.gen_bitmap(rng, "quick")[:40]
         if tier == "quick":
             ops = [o for o in ops if len(o) < 6000]
-            rng.shuffle(ops)
-            ops = ops[:1500]
+            # always keep the operations that go through scratch memory of input-dependent size (sampled analysis)
+            def big_generated(o):
+                t = o.split(" ")
+                return len(t) > 1 and t[-1].startswith("@") and int(t[-1].split(":")[2], 16) > 10000
+            must = [o for o in ops if big_generated(o)]
+            rest = [o for o in ops if not big_generated(o)]
+            rng.shuffle(rest)
+            ops = must + rest[:max(0, 1500 - len(must))]
         return ops
 
 
